@@ -575,6 +575,20 @@ func runNames(c *sup.Child, b sup.Batch) {
 				if v.Mismatch != "" || (!strict && !v.Lenient) {
 					return // disk base outside the stated preconditions: C02's business
 				}
+				if !strict && op.Kind.Mutating() && got.Err {
+					// a refused operation outside the stated preconditions may leave partial effects on
+					// a disk base (a directory copy onto an existing directory merges until it fails);
+					// the tree model does not describe them. What C05 promises is "as on the underlying
+					// filespace": the plain twin got the same call, so the two trees must still agree.
+					// The history ends here either way.
+					eo, _ := mfs.ObserveLimit(enc, model.Root.Depth()+6, 100000)
+					po, _ := mfs.ObserveLimit(plain, model.Root.Depth()+6, 100000)
+					if d := mfs.Diff(po, eo, ""); d != "" {
+						r.Violate("namespace-differs-from-base", fmt.Sprintf("after the refused step %d %s the tree of the encrypted filespace differs from the tree of the plain twin: %s", i, op, d), map[string]any{"conf": cf, "history": mfs.HistString(hist)})
+					}
+					r.AddObs("refused_steps_outside_the_preconditions_compared_with_the_twin_tree", 1)
+					return
+				}
 				if op.Kind == mfs.OpFilespace && got.Err {
 					return
 				}
